@@ -334,6 +334,26 @@ def run(chk):
                    "call_params.back() is not cleared under `call_depth == 0`")
     r95.require(6, "obligations")
 
+    # ------------------------------------------------------------------ R9.6 = C02 R2.2: a block gives up its scope only when nothing in it declares into that scope
+    if not getattr(chk, "nested", False):
+        from .. import core
+        from . import c02
+        r96 = chk.rule("R9.6", "the optimizer removes a block's scope only when nothing evaluated inside the block declares into that scope: the declaration search agrees with the evaluator, "
+                               "child by child (C02 R2.2 re-decided)",
+                       "nothing declared inside a block remains visible after it: a block whose scope was optimised away would leave its declarations in the enclosing scope")
+        sub = core.Check("C02", tier=chk.tier)
+        sub.prog = prog
+        sub.nested = True
+        c02.run(sub)
+        sr = [r for r in sub.rules if r.rid == "R2.2"]
+        r96.anchor(bool(sr), "C02 R2.2")
+        bad = [v for v in sub.violations if v["rule"] == "R2.2"]
+        for v in bad:
+            r96.ob("R2.2: %s" % v["instance"], False, v["where"], v["function"], v["detail"])
+        r96.ob("C02 R2.2 decided (%d obligations)" % sr[0].obligations, True, "", "", "")
+        chk.fn_touched |= sub.fn_touched
+        r96.require(1, "rule")
+
 
 CTOR_ALLOW = {
     "chaiscript::detail::Dispatch_Engine::call_member::<lambda#1>::This_Foist": {
